@@ -225,13 +225,21 @@ func (p *Prompt) MultilineColumnPrint(indent int) (rows int) {
 		column += strings.Repeat("\n", wrapped+1)
 		rows += wrapped + 1
 
+		var mark string
+
 		switch {
 		case numbered:
-			column += fmt.Sprintf("\x1b[1;30m%d\x1b[0m", pos+2)
+			mark = fmt.Sprintf("\x1b[1;30m%d\x1b[0m", pos+2)
 		case len(custom) > 0:
-			column += fmt.Sprintf("%s\x1b[0m", custom)
+			mark = fmt.Sprintf("%s\x1b[0m", custom)
 		default:
-			column += multilineColumnDefault
+			mark = multilineColumnDefault
+		}
+
+		// Like the secondary prompt, a mark is only printed in
+		// the columns before the text, never over the text.
+		if strutil.RealLength(mark) <= indent {
+			column += mark
 		}
 	}
 
